@@ -18,7 +18,7 @@ RULE = ("exhaustive: every barrier layout x every (start, goal) cell pair x conn
 BUDGET = {'quick': 120, 'thorough': 1200}
 MODES = {'quick': [('J', 13), ('I', 3)], 'thorough': [('J', 13), ('I', 3)]}
 FLOORS = {'quick': {'shortest': 20000, 'no_route_all_nan': 3000, 'detour': 1500, 'snap.nearest': 200, 'fractional_coords': 5000,
-                    'offcentre_point': 200, 'modeI.pops_bounded': 300, 'blocked_endpoint_all_nan': 3000},
+                    'offcentre_point': 200, 'modeI.pops_bounded': 300, 'blocked_endpoint_all_nan': 3000, 'two_corridor_near_tie': 25},
           'thorough': {'shortest': 150000, 'detour': 15000, 'snap.nearest': 2000}}
 EXHAUSTIVE = {'quick': ['barrier layouts x start x goal x connectivity on 2x2, 2x3, 3x2, 3x3 (3x3: the four coordinate geometries rotate by layout)'],
               'thorough': ['barrier layouts x start x goal x connectivity on 2x2, 2x3, 3x2, 3x3, 2x4, 4x2 under each of four coordinate geometries']}
@@ -50,6 +50,8 @@ def plan(tier, seed):
     out += [('snap', i) for i in range(n // 2)]
     # large open grids with a wall and two gaps: two competing routes whose costs differ by little (admissibility of the heuristic)
     out += [('twogap', i) for i in range(160 if tier == 'quick' else 1500)]
+    # two one-cell-wide corridors whose costs differ by a small a*sqrt(2)-b (convergents of sqrt 2) with a long straight final run
+    out += [('corridor', i) for i in range(64 if tier == 'quick' else 600)]
     return out
 
 
@@ -59,7 +61,7 @@ def shard_filter(descs, shard, nshards, mode):
     else:
         pass
     if mode == 'I':
-        descs = [d for d in descs if d[0] != 'twogap']
+        descs = [d for d in descs if d[0] not in ('twogap', 'corridor')]
     return [d for i, d in enumerate(descs) if i % nshards == shard]
 
 
@@ -291,6 +293,39 @@ def check(rec, kind, idx, rng, tier):
                         pay = dict(grid=grid, barriers=[1], start_cell=s, goal_cell=g, start=ps, goal=pg, connectivity=conn, geom=geom,
                                    floor_cells=[_floor_cell(ps, ys, xs, geom), _floor_cell(pg, ys, xs, geom)])
                         judge(rec, grid, ok, conn, out, s, g, False, False, pay, frac=geom['cx'] != 1.0)
+        return
+    if kind == 'corridor':
+        d_, e_ = [(5, 13), (7, 18), (12, 30), (3, 8), (17, 42), (2, 6)][int(rng.integers(0, 6))]      # (d+e-1)*sqrt2 ~ 2e-2: convergents 17/24, 24/34, 41/58, 10/14, 58/82, 7/10
+        a_ = int(e_ - d_ + rng.integers(0, 6)); L = int(d_ + e_ + rng.integers(2, 60))
+        H, W = a_ + d_ + 2, L + 1
+        blocked = np.ones((H, W), dtype=bool)
+        blocked[0:a_ + 1, 0] = False; blocked[0, :] = False
+        r_, c_ = a_, 0
+        for _ in range(d_):
+            r_ += 1; c_ += 1; blocked[r_, c_] = False
+        while c_ < L - e_:
+            c_ += 1; blocked[r_, c_] = False
+        for _ in range(e_):
+            r_ -= 1; c_ += 1; blocked[r_, c_] = False
+        blocked[0:r_ + 1, L] = False
+        s, g = (a_, 0), (0, L)
+        grid = blocked.astype('float64')
+        tr = int(rng.integers(0, 4))
+        if tr & 1:
+            grid = grid[:, ::-1].copy(); s = (s[0], W - 1 - s[1]); g = (g[0], W - 1 - g[1])
+        if tr & 2:
+            grid = grid.T.copy(); s = (s[1], s[0]); g = (g[1], g[0])
+        if rng.random() < 0.5:
+            s, g = g, s
+        ok = grid == 0
+        geom = dict(cx=1.0, cy=1.0, x0=0.0, y0=0.0, ydesc=False, xdesc=False)
+        surf, ys, xs = _surface(grid, geom)
+        rec.evaluation()
+        ps = (ys[s[0]], xs[s[1]]); pg = (ys[g[0]], xs[g[1]])
+        out = _search(rec, surf, ps, pg, barriers=[1], connectivity=8)
+        pay = dict(grid_shape=grid.shape, corridor_params=dict(a=a_, d=d_, e=e_, L=L, transform=tr), barriers=[1], start_cell=s, goal_cell=g, connectivity=8, style='two corridors')
+        judge(rec, grid, ok, 8, out, s, g, False, False, pay)
+        rec.cls('maze.corridor'); rec.ok('two_corridor_near_tie')
         return
     if kind == 'twogap':
         H, W = int(rng.integers(15, 36)), int(rng.integers(30, 61))
